@@ -173,6 +173,14 @@ pub mod verif {
         }
     }
 
+    /// `shared::apply_response_header_edits` on a pooled response stream
+    pub fn apply_response_header_edits(
+        kawa: &mut kawa::Kawa<crate::pool::Checkout>,
+        edits: &[crate::protocol::http::editor::HeaderEditSnapshot],
+    ) {
+        super::shared::apply_response_header_edits(kawa, edits)
+    }
+
     /// `router::authority_matches_sni`
     pub fn authority_matches_sni(authority: &str, sni_lowercased: &str) -> bool {
         super::router::authority_matches_sni(authority, sni_lowercased)
